@@ -175,42 +175,40 @@ Theorem C11_other_program_contributes_nothing : forall files g i k,
 Proof. exact other_program_contributes_nothing. Qed.
 Print Assumptions C11_other_program_contributes_nothing.
 
-(* ---- Viewer, weekly reports (newTelemetryReport).  For every program of a
-   report whose Counters keys are plain names (every report the uploader
-   writes): the set verdict is the documented one; the listed names are
-   exactly the plain counters that are not approved, so no approved counter or
-   stack is ever called excluded ... *)
+(* ---- Viewer, weekly reports (newTelemetryReport after fix a1becfe: summary
+   from the identity fields, the Counters and the Stacks).  For every program
+   of a report whose Counters keys are plain names and whose Stacks keys are
+   stack names (every report the uploader writes): the names listed are
+   exactly the displayed names (a stack's title) of the counters AND stack
+   counters that are not approved, i.e. that the uploader drops ... *)
 Theorem C11_viewer_report_names : forall u p,
   approved_build u (fst p) -> plain_keys p ->
   summary_names (viewer_report_summary (new_config u) p) =
-  filter (fun k => negb (approved_counterb u (id_program (fst p)) k)) (map fst (fst (snd p))).
+  map display_name (filter (fun k => negb (approved_itemb u (id_program (fst p)) k)) (report_items p)).
 Proof. exact viewer_report_names. Qed.
 Print Assumptions C11_viewer_report_names.
 
-Theorem C11_viewer_report_no_false_claim : forall u p n,
-  approved_build u (fst p) -> plain_keys p ->
-  In n (summary_names (viewer_report_summary (new_config u) p)) ->
-  In n (map fst (fst (snd p))) /\ approved_counterb u (id_program (fst p)) n = false.
-Proof. exact viewer_report_no_false_claim. Qed.
-Print Assumptions C11_viewer_report_no_false_claim.
+(* ... so the report view never calls an approved counter or stack excluded,
+   and leaves out nothing the uploader drops (formerly finding 19) ... *)
+Theorem C11_viewer_report_lists_dropped : forall u p, approved_build u (fst p) -> plain_keys p ->
+  (forall n, In n (summary_names (viewer_report_summary (new_config u) p)) ->
+             exists k, In k (report_items p) /\ display_name k = n /\ approved_itemb u (id_program (fst p)) k = false) /\
+  (forall k, In k (report_items p) -> approved_itemb u (id_program (fst p)) k = false ->
+             In (display_name k) (summary_names (viewer_report_summary (new_config u) p))).
+Proof. exact viewer_report_lists_dropped. Qed.
+Print Assumptions C11_viewer_report_lists_dropped.
 
-(* ... and the executable report oracle reports nothing on the model except
-   the omitted-stack class, which needs an unapproved stack in the report. *)
+(* ... its set verdict is the documented one ... *)
+Theorem C11_viewer_report_set : forall u p,
+  summary_excludes_set (viewer_report_summary (new_config u) p) = negb (approved_buildb u (fst p)).
+Proof. exact viewer_report_set. Qed.
+Print Assumptions C11_viewer_report_set.
+
+(* ... and the executable report oracle reports nothing on the model. *)
 Theorem C11_viewer_report_oracle_model : forall u p, plain_keys p ->
-  forall cl, In cl (viewer_report_check u p (viewer_report_summary (new_config u) p)) ->
-  cl = AViewerReportStackOmitted /\ approved_buildb u (fst p) = true /\
-  exists k, In k (map fst (snd (snd p))) /\ approved_stackb u (id_program (fst p)) k = false.
+  viewer_report_check u p (viewer_report_summary (new_config u) p) = [].
 Proof. exact viewer_report_check_model. Qed.
 Print Assumptions C11_viewer_report_oracle_model.
-
-(* finding 19: the report view does not examine the Stacks of a report: an
-   unapproved stack counter of a local report is not mentioned although the uploader drops it *)
-Theorem C11_viewer_report_stack_refuted :
-  exists u p, approved_buildb u (fst p) = true /\
-    (exists k v, In (k, v) (snd (snd p)) /\ approved_stackb u (id_program (fst p)) k = false) /\
-    viewer_report_summary (new_config u) p = SClean.
-Proof. exact viewer_report_stack_refuted. Qed.
-Print Assumptions C11_viewer_report_stack_refuted.
 
 (* ---- Non-vacuity *)
 Definition ex_cfg : upload_cfg :=
@@ -254,4 +252,12 @@ Proof. vm_compute. reflexivity. Qed.
 Example ex_two_programs_order2 :
   map (fun p => (List.length (fst (snd p)), List.length (snd (snd p))))
       (filter_upload (new_config ex_cfg2) bits_half (aggregate [ex_f "cmd/compile"; ex_f "cmd/go"])) = [(1%nat, 0%nat); (0%nat, 1%nat)].
+Proof. vm_compute. reflexivity. Qed.
+
+(* the report view on a local report: dropped counter and dropped stack both listed, approved ones not *)
+Example ex_report_view :
+  viewer_report_summary (new_config ex_cfg)
+    (ex_id "linux", ([(s2b "chart:a", 1%Z); (s2b "chart:c", 5%Z)],
+                     [(s2b "stk" ++ [10] ++ s2b "f", 7%Z); (s2b "st" ++ [10] ++ s2b "f", 1%Z)]))
+  = SCounters [s2b "chart:c"; s2b "st"].
 Proof. vm_compute. reflexivity. Qed.
